@@ -37,3 +37,69 @@ def regen_mine(ctx):
 def coq_hex(bs):
     """bytes -> Coq term `(hx "..")` (model/AfcCases.v)"""
     return '(hx "%s"%%string)' % bytes(bs).hex()
+
+
+def unhex(s):
+    return b"" if s == "-" else bytes.fromhex(s)
+
+
+CASES_HEADER = ("From Coq Require Import String.\nFrom Aranya Require Import base.Tactics base.Harness model.TupleHash "
+                "model.CryptoSym model.AfcCases model.CryptoCases.\nOpen Scope N_scope.\n")
+
+
+def run_lines(ctx, binp, lines):
+    """Feed lines to a harness binary; None on any failure (obligation recorded)."""
+    rc, out, err = vlib.run_bin(binp, input="\n".join(lines) + "\n")
+    ol = out.splitlines()
+    badl = [l[:300] for l in ol if l.startswith(("panic", "badcase"))]
+    if rc != 0 or len(ol) != len(lines) or badl:
+        ctx.oblige("harness:run", False, "rc=%s lines=%d/%d %s %s" % (rc, len(ol), len(lines), badl[:2], err[-800:]))
+        return None
+    return ol
+
+
+def eval_mismatches(ctx, name, items, render, shard=100):
+    """Sharded Coq evaluation; returns indices of mismatching items or None."""
+    outs, chunks = vlib.coq_eval_sharded(ctx, name, CASES_HEADER, items, render, shard=shard)
+    mism, base = [], 0
+    for (rc, o), ch in zip(outs, chunks):
+        v = vlib.parse_coq_value(o) if rc == 0 else None
+        if v is None:
+            ctx.oblige("correspondence:model-eval", False, o[-2000:])
+            return None
+        mism += [base + j for j in v]
+        base += len(ch)
+    return mism
+
+
+def parse_log(s):
+    """' ; '-separated recorder entries -> list of tuples (kind, bytes...)."""
+    out = []
+    for ent in s.split(" ; "):
+        f = ent.split()
+        if not f:
+            continue
+        if f[0] in ("S", "O"):
+            # S nonce ad pt ok ct tag ; O nonce ad ct tag ok after
+            out.append((f[0],) + tuple(unhex(x) if i not in ((3,) if f[0] == "S" else (4,)) else x for i, x in enumerate(f[1:])))
+        else:
+            out.append((f[0],) + tuple(unhex(x) for x in f[1:]))
+    return out
+
+
+def sweep_oracle(sw, ok_labels, bad, i, skip=("len",), ok_value="ok"):
+    """every label must be `err` except the base labels which must be ok; returns (#mutations, by kind)."""
+    n, kinds = 0, {}
+    for label, res in sw.items():
+        if label in skip:
+            continue
+        if label in ok_labels:
+            if res != ok_labels[label]:
+                bad.append((i, label, "honest case failed: %s=%s" % (label, res)))
+            continue
+        n += 1
+        k = label.rstrip("0123456789").rstrip(".")
+        kinds[k] = kinds.get(k, 0) + 1
+        if res not in ("err", "differ"):
+            bad.append((i, label, "succeeded after the change `%s` (%s)" % (label, res)))
+    return n, kinds
